@@ -275,7 +275,10 @@ def all_tables_cell(cell, seed):
                if not mism else res(VIOLATED, case, 'M-TABLE.idem', mism[0]))
     for n in names:
         disk = disk_table(n)
-        okd = n in cache and all(k in disk and np.array_equal(disk[k], v) for k, v in cache[n].items())
+        ent = dict.__getitem__(cache, n) if n in cache else None
+        if not isinstance(ent, dict):
+            continue            # another cache layout: the loader returns are compared with the disk instead
+        okd = all(k in disk and np.array_equal(disk[k], v) for k, v in ent.items())
         case = dict(base, table=n, check='disk-with-full-cache')
         out.append(res(HELD, case, 'M-TABLE.disk', ratio=0.0) if okd else
                    res(VIOLATED, case, 'M-TABLE.disk', 'cached table differs from the table on disk'))
@@ -392,10 +395,11 @@ def run_cell(cell, seed):
     from .. import attach
     for v in attach.drain():
         out.append(res(VIOLATED, dict(base, check='cache'), v['monitor'], v['detail']))
-    if name in cache:
-        ro = all(not a.flags.writeable for a in cache[name].values() if isinstance(a, np.ndarray))
+    if name in cache and isinstance(dict.__getitem__(cache, name), dict):
+        ent = dict.__getitem__(cache, name)
+        ro = all(not a.flags.writeable for a in ent.values() if isinstance(a, np.ndarray))
         case = dict(base, check='cache-content')
-        okc = all(k in disk and np.array_equal(disk[k], v) for k, v in cache[name].items())
+        okc = all(k in disk and np.array_equal(disk[k], v) for k, v in ent.items())
         out.append(res(HELD, case, 'M-CACHE', 'read-only=%s sets=%d' % (
             ro, sum(1 for e in getattr(cache, 'events', []) if e[0] == 'set' and e[1] == name)), ratio=0.0)
             if okc else res(VIOLATED, case, 'M-CACHE', 'cached table differs from the table on disk'))
